@@ -85,7 +85,7 @@ func c13Gen(r *core.Rng) c13case {
 			v.Kind = "join"
 			m := r.Range(0, 4)
 			for j := 0; j < m; j++ {
-				v.Parts = append(v.Parts, core.Pick(r, []string{"", ".", "..", "a", "b c", "bin", "/abs", "/", "x/../y", "dir/", "./rel", "a//b"}))
+				v.Parts = append(v.Parts, core.Pick(r, []string{"", ".", "..", "a", "b c", "bin", "/abs", "/", "x/../y", "dir/", "./rel", "a//b", "/a/../b", "/abs/./x/"}))
 			}
 		default:
 			v.Kind = "exec"
